@@ -7,7 +7,7 @@ mkdir -p .work/bin evidence
 ./harness/build.sh
 .work/bin/vh gen lean/ControlModel/Gen
 cd lean
-lake build driver
+python3 ../tools/build_driver.py
 # every property file that exists; a failure here is reported by the individual checks
 for f in ControlModel/Props/C*.lean; do
   m=$(basename "$f" .lean)
